@@ -1,11 +1,11 @@
-"""EscapeTables.v: the table-like parts of brush-core/src/escape.rs (and one constant of expansion.rs),
+"""C13EscapeTables.v: the table-like parts of brush-core/src/escape.rs (and one constant of expansion.rs),
 re-parsed from the Rust source on every run.  Every item is shape-checked; an unrecognised shape
 raises CheckBroken (fail closed)."""
 import os, re
 from vlib import core
 from translator import regen
 
-USES = {"C13": ["escape_tables"]}
+USES = {"C13": ["c13_escape"]}
 
 
 def _read(rel):
@@ -209,7 +209,7 @@ Definition zero_octal_digits_ansic : nat := %d.
 Definition dq_reader_escapes : list N := %s.
 """ % (nlist(ne), "true" if positional else "false", nlist(dq), plist(named), plist(dec_both), plist(dec_ansic),
        zero_echo, zero_ansic, nlist(dqe))
-    return regen.write_if_changed("EscapeTables.v", out)
+    return regen.write_if_changed("C13EscapeTables.v", out)
 
 
-EXTRACTORS = {"escape_tables": escape_tables}
+EXTRACTORS = {"c13_escape": escape_tables}
